@@ -559,8 +559,10 @@ Lemma exemplars_sorted_lemma g l e o : ex_sorted l = true -> vnn l -> is_nan (fs
   ex_sorted (add_exemplar g l e o) = true.
 Proof.
   intros Hs Hv He. apply ssorted_of_ex_sorted in Hs. apply ex_sorted_of_ssorted.
-  unfold add_exemplar. destruct (ex_disabled g); [exact Hs|].
-  destruct (zlen l <? ex_cap g).
+  unfold add_exemplar. destruct (ex_disabled g) eqn:Hd; [exact Hs|].
+  assert (Hcap : 1 <= ex_cap g).
+  { unfold ex_disabled in Hd. unfold ex_cap. destruct (Z.eqb_spec (g_ex_max g) 0); [lia|]. destruct (Z.ltb_spec (g_ex_max g) 0); [discriminate|lia]. }
+  destruct (Z.ltb_spec (zlen l) (ex_cap g)) as [Hlt|Hge].
   - destruct (insertion_point_ok true l e Hs Hv He) as [A B]. cbv zeta in A, B.
     unfold take, drop. apply insert_sorted; assumption.
   - destruct (Z.eqb_spec (zlen l) 1); [split; [intros x []|exact I]|].
@@ -571,8 +573,7 @@ Proof.
     destruct (insertion_point_ok false l e Hs Hv He) as [A B]. cbv zeta in A, B.
     pose proof (insert_sorted l e _ Hs A B) as Hins.
     destruct (Z.eq_dec (zlen l) 0) as [E0|E0].
-    + assert (l = []) by (destruct l; [reflexivity|unfold zlen in E0; cbn in E0; lia]). subst l.
-      unfold replace_ex. cbn. destruct (_ && _); cbn; repeat split; intros x [].
+    + lia.
     + apply replace_ex_sorted; [|lia|exact Hins].
       destruct (negb (otIdx =? -1) && (ex_ttl g <? snd e - ot)).
       * destruct O as [(_ & -> & _)|O]; [unfold zlen in E0; cbn in E0; lia|lia].
